@@ -437,3 +437,21 @@ def verdict (i : IDL) : Verdict :=
 
 end Gen
 end VV
+
+namespace VV
+namespace Gen
+
+/-- every skeleton condition at once -/
+def Emission.clean (e : Emission) : Bool :=
+  e.noPanic && e.noKeyword && e.itemsDistinct && e.fnsDistinct && e.noCycle && e.noAmbiguity && e.noShadow && e.noLint
+
+/-- a `type` definition is a struct or an enum (the grammar has nothing else) -/
+def isDef : Ty → Bool
+  | .struct _ => true
+  | .enum _ => true
+  | _ => false
+
+def typedefsAreDefs (i : IDL) : Bool := i.types.all fun p => isDef p.2
+
+end Gen
+end VV
